@@ -42,6 +42,9 @@ def LockOut (tbl : Table) (fs : FlagMap) (inpW : Bytes) (δ : Nat) (K : Nat → 
   (match rs.2, rw.2 with
    | none, none => ∃ d', BRel tbl fs inpW δ d' 0 rs.1 rw.1 ∧ K d' rs.1.x.sink rw.1.x.sink
    | some (.endOfInput c), some (.endOfInput c') => ∃ d', c' + d' = c + δ ∧ K d' rs.1.x.sink rw.1.x.sink
+   | some (.directive dr bm), some (.directive dr' bm') =>
+       SigRel δ 0 (some (.directive dr bm)) (some (.directive dr' bm')) ∧
+       ∃ ab'', MRel δ 0 0 ab'' .none rs.1 rw.1 ∧ K 0 rs.1.x.sink rw.1.x.sink
    | a, b => SigRel δ 0 a b)
 
 /-- what the split run's sink has received in a breaking step: nothing, or one text lexeme (`eoc` arm) -/
@@ -171,27 +174,41 @@ theorem flagsOf_entry {tbl : Table} {fs : FlagMap} (hwf : WfChunkWith tbl fs = t
 theorem BSide.plain {tbl : Table} (inpW : Bytes) (cs : Common) (npw : Nat) : BSide tbl inpW 0 0 .none cs npw :=
   fun _ _ => ⟨Or.inl rfl, fun h => absurd h (Nat.lt_irrefl 0), fun h => absurd h (Nat.lt_irrefl 0)⟩
 
+/-- related signals (with the machine relation on a directive change) as a step outcome -/
+theorem lockOut_of_sig {tbl : Table} {fs : FlagMap} {ms mw : M κ} {sg sg' : Signal}
+    (hs : SigRel δ 0 (some sg) (some sg')) (hdir : DirOk δ K (ms, some sg) (mw, some sg')) :
+    LockOut tbl fs inpW δ K (ms, some sg) (mw, some sg') := by
+  right
+  cases sg with
+  | err e => cases sg' <;> first | exact hs | exact hs.elim
+  | endOfInput c => cases sg' <;> exact hs.elim
+  | directive dr bm =>
+    cases sg' with
+    | directive dr' bm' => exact ⟨hs, hdir dr bm rfl⟩
+    | err e => exact hs.elim
+    | endOfInput c => exact hs.elim
+
 /-- an arm body's outcome as a step outcome -/
 theorem body_to_lock {fs : FlagMap} {st : StateId} {sd : StateDef} {c0 : Common}
     (cx : StepCtx env.tbl fs st sd c0) {rs rw : M κ × Option Signal × SeqEnd}
     (hb : BodySim δ K fs st true c0 rs rw) :
     LockOut env.tbl fs inpW δ K (rs.1, rs.2.1) (rw.1, rw.2.1) := by
-  rcases hb with hp | ⟨hs, hend, hm⟩
+  rcases hb with hp | ⟨hs, hend, hdir, hm⟩
   · exact Or.inl hp
-  · right
-    cases hrs : rs.2.1 with
+  · cases hrs : rs.2.1 with
     | some sg =>
       rw [hrs] at hs
       cases hrw : rw.2.1 with
       | none => rw [hrw] at hs; cases hs.none_right
       | some sg' =>
         rw [hrw] at hs
-        simp only
-        cases sg <;> cases sg' <;> first | exact hs | exact hs.elim
+        rw [hrs, hrw] at hdir
+        exact lockOut_of_sig hs hdir
     | none =>
       rw [hrs] at hs
       rw [hs.none_left]
       obtain ⟨hk, hcase⟩ := hm hrs
+      right
       simp only
       refine ⟨0, ?_, hk⟩
       cases hse : rs.2.2 with
